@@ -131,7 +131,20 @@ PLAN13 = {
  'WDG-m1': ('G', ['C08']), 'WDG-m2': ('G', ['C08']),
  'WDH-m1': ('H', ['C01']), 'WDH-m2': ('H', ['C01']),
 }
+PLAN14 = {
+ 'WEA-m1': ('A', ['C17']), 'WEA-m2': ('A', ['C17']),
+ 'WEB-m1': ('B', ['C02']), 'WEB-m2': ('B', ['C02']),
+ 'WEC-m1': ('C', ['C03']), 'WEC-m2': ('C', ['C03']),
+ 'WED-m1': ('D', ['C05']), 'WED-m2': ('D', ['C05']),
+ 'WEE-m1': ('E', ['C19']), 'WEE-m2': ('E', ['C19']),
+ 'WEF-m1': ('F', ['C12']), 'WEF-m2': ('F', ['C12']),
+ 'WEG-m1': ('G', ['C08']), 'WEG-m2': ('G', ['C08']),
+ 'WEH-m1': ('H', ['C09']), 'WEH-m2': ('H', ['C09']),
+}
 SRC = {}
+for k, (d, checks) in PLAN14.items():
+    PLAN[k] = checks
+    SRC[k] = f'/tmp/mut14-{d}/out/{k.split("-")[1]}'
 for k, (d, checks) in PLAN13.items():
     PLAN[k] = checks
     SRC[k] = f'/tmp/mut13-{d}/out/{k.split("-")[1]}'
